@@ -71,8 +71,9 @@ def scen_oa(env, mode, with_guard, nput, stop_data):
     kw = {}
     if stop_data:
         kw['stop_data'] = {'value': STOP_VALUE, 'extra': 'sd'}
+    mode_arg = mode if env.choose(2, 'mode_alias') else mode[0]      # 'wait' / 'w' ...
     oa = edzed.OutputAsync(
-        'oa', coro=coro, mode=mode, guard_time=g, stop_timeout=1000.0,
+        'oa', coro=coro, mode=mode_arg, guard_time=g, stop_timeout=1000.0,
         on_success=edzed.Event(p, 'ok'), on_cancel=edzed.Event(p, 'cancel'), on_error=edzed.Event(p, 'err'),
         on_output=edzed.Event(outp, 'out'), **kw)
     oa_ref.append(oa)
